@@ -62,8 +62,9 @@ type world struct {
 	plan    *txnPlan
 	kvx     bool
 	planted map[string]string
-	faults  int32 // faults injected into bootstrap processing so far
-	silent  bool  // the request that bootstrapped the cluster was answered with an error (injected fault)
+	faults  int32  // faults injected into bootstrap processing so far
+	silent  bool   // the request that bootstrapped the cluster was answered with an error (injected fault)
+	quiet   string // non-empty: the race ran in one leader term without any fault; names the class of the race
 	etcd    *clientv3.Client
 	hx      *etcdx.Etcd
 	conns   [][]*grpc.ClientConn
@@ -826,6 +827,14 @@ func (w *world) judgeServed(stage string, l int) {
 	rr, err := pd.GetRegionByID(ctx, &pdpb.GetRegionByIDRequest{Header: hdr, RegionId: w.winner.Region.GetId()})
 	if err == nil && rr.GetHeader().GetError() == nil {
 		if rr.Region == nil {
+			if stage == "after-race" && w.quiet != "" {
+				// no fault, no leader change: the leader that answered the successful request serves
+				// the cluster without that request's first region, i.e. something other than the
+				// successful request shaped what the cluster is
+				r.Violation("bootstrap:first-region-not-served:"+w.quiet, fmt.Sprintf("after the bootstrap race (same leader term, no fault) GetRegionByID(%d) returns no region; the successful request carried %v", w.winner.Region.GetId(), w.winner.Region),
+					w.witness(map[string]interface{}{"stage": stage}))
+				return
+			}
 			// The statement is about what is stored. A leader that took over on another member before
 			// any region heartbeat serves no region at all (its local region storage is only fed by
 			// region sync): counted, not judged here.
@@ -834,6 +843,22 @@ func (w *world) judgeServed(stage string, l int) {
 			r.Violation("bootstrap:served-region-differs-from-winner:"+stage, fmt.Sprintf("GetRegionByID(%d) returns %v", w.winner.Region.GetId(), rr.Region), w.witness(map[string]interface{}{"stage": stage}))
 			return
 		}
+	}
+	if stage == "after-race" && w.quiet != "" {
+		// by key, and the number of regions served
+		gr, err := pd.GetRegion(ctx, &pdpb.GetRegionRequest{Header: hdr, RegionKey: []byte("any-key")})
+		if err == nil && gr.GetHeader().GetError() == nil && (gr.Region == nil || !proto.Equal(gr.Region, w.winner.Region)) {
+			r.Violation("bootstrap:first-region-not-served:"+w.quiet, fmt.Sprintf("after the bootstrap race (same leader term, no fault) GetRegion(key) returns %v; the successful request carried %v", gr.Region, w.winner.Region),
+				w.witness(map[string]interface{}{"stage": stage}))
+			return
+		}
+		sr, err := pd.ScanRegions(ctx, &pdpb.ScanRegionsRequest{Header: hdr, Limit: 16})
+		if err == nil && sr.GetHeader().GetError() == nil && (len(sr.RegionMetas) != 1 || !proto.Equal(sr.RegionMetas[0], w.winner.Region)) {
+			r.Violation("bootstrap:first-region-not-served:"+w.quiet, fmt.Sprintf("after the bootstrap race (same leader term, no fault) ScanRegions returns %d regions %v; the successful request carried %v", len(sr.RegionMetas), sr.RegionMetas, w.winner.Region),
+				w.witness(map[string]interface{}{"stage": stage}))
+			return
+		}
+		r.Count("first_region_served_checks_judged", 1)
 	}
 	w.mu.Lock()
 	calls := append([]bsCall(nil), w.calls...)
@@ -1057,6 +1082,52 @@ func bootstrapRound(r *ev.Run, round int, p roundPlan, rng *rand.Rand) {
 		w.sideTraffic(l, raceDone, &aux)
 		time.Sleep(5 * time.Millisecond) // the other RPC kinds are already arriving when the race starts
 	}
+	if w.plan != nil && p.TxnFault == "hold-after-quiet" {
+		// Other requests are issued and answered while the winner sits between its committed
+		// transaction and everything it does afterwards (region save, raft cluster start). No fault,
+		// no leader change.
+		aux.Add(1)
+		go func(l int) {
+			defer aux.Done()
+			defer w.plan.Release()
+			select {
+			case <-raceDone:
+				r.Count("txn_hold_not_reached", 1)
+				return
+			case <-w.plan.held:
+			}
+			// the ids the committed transaction carried, read from etcd
+			var sid, rid, pid uint64
+			if t, err := w.readTruth(); err == nil {
+				for _, v := range t.Stores {
+					st := &metapb.Store{}
+					if st.Unmarshal([]byte(v)) == nil {
+						sid = st.Id
+					}
+				}
+				for _, v := range t.Regions {
+					rg := &metapb.Region{}
+					if rg.Unmarshal([]byte(v)) == nil && len(rg.Peers) > 0 {
+						rid, pid = rg.Id, rg.Peers[0].Id
+					}
+				}
+			}
+			n := 0
+			for _, v := range []string{"direct", "grpc"} {
+				w.send("inside-winner-window", "valid", v, l, w.request("valid"))
+				n++
+				if sid != 0 && rid != 0 {
+					st, rg := w.variantOf(sid, rid, pid, false)
+					w.send("inside-winner-window-same-ids", "valid", v, l, &pdpb.BootstrapRequest{Header: &pdpb.RequestHeader{ClusterId: w.id}, Store: st, Region: rg})
+					r.Count("bootstrap_requests_same_ids_different_content", 1)
+					n++
+				}
+			}
+			r.Count("requests_answered_inside_winner_window", int64(n))
+			r.Count("winner_windows_with_other_requests", 1)
+			w.step("%d other bootstrap requests were answered while the winner's committed transaction was held; released", n)
+		}(l)
+	}
 	if w.plan != nil && (p.TxnFault == "hold-after" || p.TxnFault == "hold-before") {
 		// leader change while the bootstrap transaction is in flight: as soon as a transaction is
 		// held (before sending / after its commit) the leader resigns; once a leader serves again
@@ -1102,7 +1173,16 @@ func bootstrapRound(r *ev.Run, round int, p roundPlan, rng *rand.Rand) {
 		}
 	}
 	w.step("race of %d requests (%d well-formed) finished", len(jobs), p.K)
+	l0 := l
 	l = w.leader()
+	if l == l0 && !p.PreResign && atomic.LoadInt32(&w.faults) == 0 {
+		switch p.TxnFault {
+		case "":
+			w.quiet = "plain-race"
+		case "hold-after-quiet":
+			w.quiet = "loser-ran-inside-winner-window"
+		}
+	}
 	if l < 0 {
 		r.Inconclusive("round %d: no leader after the race", round)
 		return
